@@ -115,6 +115,12 @@ var corpus = []string{
 	`select ?s, ?r from ?a where {?s "p"@[] ?o . optional {?o "q"@[] ?r}} order by ?r, ?s;`,
 	`select ?s, ?r, ?w from ?a where {?s "p"@[] ?o . optional {?o "q"@[] ?r} . optional {?x "zz"@[] ?w}} order by ?w, ?r;`,
 	`select ?n, ?s, ?q, ?o from ?a where {?n "_subject"@[] ?s . ?n "_predicate"@[] ?q . ?n "_object"@[] ?o};`,
+	// two required clauses without a common binding (a cross product), one side or both without a match
+	`select ?s, ?x from ?a where {?s "p"@[] ?o . ?x "zz"@[] ?y};`,
+	`select ?s, ?x from ?a where {?x "zz"@[] ?y . ?s "p"@[] ?o};`,
+	`select ?s, ?x from ?a where {?s "zz"@[] ?o . ?x "zy"@[] ?y};`,
+	`select ?s, ?x from ?a where {?s "p"@[] ?o . /u<nobody> "p"@[] ?x};`,
+	`construct {?s "new"@[] ?x} into ?b from ?a where {?s "p"@[] ?o . ?x "zz"@[] ?y};`,
 	// the same output name twice (refused when the table is built), with and without rows in the result
 	`select ?s, ?s from ?a where {?s "p"@[] ?o};`,
 	`select ?s, ?s from ?a where {?s "zz"@[] ?o};`,
